@@ -49,7 +49,7 @@ static void die(const char *fmt, ...)
 extern long ncmpi_verif_hits[] __attribute__((weak));
 extern int  ncmpi_verif_nhits __attribute__((weak));
 extern const char *ncmpi_verif_hit_names[] __attribute__((weak));
-extern int ncmpi_verif_walk(int ncid, char *msg, int len) __attribute__((weak));
+extern int ncmpi_verif_walk(int ncid, int strict, char *msg, int len) __attribute__((weak));
 
 /* ------------------------------------------------------------------ slots */
 #define NF 1100
@@ -120,6 +120,13 @@ static char *hexenc(const unsigned char *p, size_t n)
 }
 static uint64_t fnv(const unsigned char *p, size_t n, uint64_t h)
 { for (size_t i = 0; i < n; i++) { h ^= p[i]; h *= 1099511628211ULL; } return h; }
+
+/* invariant walker (library hook): runs after every script op on every open file.  The agreement of the mode flags of
+ * dispatcher and driver is only demanded of files on which no mode-changing call has ever failed. */
+static int Ftaint[1100];
+static int g_walk = -1;
+static long g_nwalks = 0;
+static void auto_walk(const char *op);
 
 static int get_ncid(void)
 {
@@ -212,7 +219,7 @@ static void op_create_open(const char *op)
     if (!strcmp(op, "create")) err = ncmpi_create(getcomm(), path, (int)argi("cmode", 0), info, &id);
     else err = ncmpi_open(getcomm(), path, (int)argi("omode", 0), info, &id);
     if (info != MPI_INFO_NULL) PMPI_Info_free(&info);
-    if (slot >= 0 && slot < NF) F[slot] = id;
+    if (slot >= 0 && slot < NF) { F[slot] = id; Ftaint[slot] = 0; }
     logf_("R %d %s err=%d ncid=%d\n", g_line, op, err, id);
     free(path);
 }
@@ -236,6 +243,7 @@ static void op_simple(const char *op)
     else if (!strcmp(op, "fill_var_rec")) err = ncmpi_fill_var_rec(ncid, (int)argireq("v"), argireq("rec"));
     else if (!strcmp(op, "set_fill")) { int old = -1; err = ncmpi_set_fill(ncid, (int)argireq("mode"), &old); logf_("R %d %s err=%d old=%d\n", g_line, op, err, old); return; }
     else { die("unknown simple op %s", op); return; }
+    if (err != NC_NOERR && !arg("ncid")) Ftaint[argireq("f")] = 1;
     logf_("R %d %s err=%d\n", g_line, op, err);
 }
 
@@ -671,7 +679,7 @@ static void op_misc(const char *op)
     else if (!strcmp(op, "p2plog")) { shim.log_p2p = (int)argi("on", 1); logf_("R %d p2plog\n", g_line); }
     else if (!strcmp(op, "balance")) {
         MPI_Offset ms = -1; int e = ncmpi_inq_malloc_size(&ms);
-        logf_("R %d balance types=%ld comms=%ld infos=%ld files=%ld tot=%ld,%ld,%ld,%ld malloc=%lld mallocerr=%d io=%ld fired=%ld\n", g_line,
+        logf_("R %d balance final=%d types=%ld comms=%ld infos=%ld files=%ld tot=%ld,%ld,%ld,%ld malloc=%lld mallocerr=%d io=%ld fired=%ld\n", g_line, (int)argi("final", 0),
               shim_bal[0], shim_bal[1], shim_bal[2], shim_bal[3], shim_tot[0], shim_tot[1], shim_tot[2], shim_tot[3], (long long)ms, e, shim_io_ord, shim.fault_fired);
         if (ms > 0 && argi("list", 0)) ncmpi_inq_malloc_list();
     }
@@ -683,7 +691,7 @@ static void op_misc(const char *op)
     }
     else if (!strcmp(op, "walk")) {
         char msg[1024]; msg[0] = 0; int e = -9999;
-        if (ncmpi_verif_walk) e = ncmpi_verif_walk(get_ncid(), msg, sizeof(msg));
+        if (ncmpi_verif_walk) e = ncmpi_verif_walk(get_ncid(), (int)argi("strict", 0), msg, sizeof(msg));
         for (char *c = msg; *c; c++) if (*c == ' ' || *c == '\n') *c = '_';
         logf_("R %d walk err=%d msg=%s\n", g_line, e, msg[0] ? msg : "-");
     }
@@ -700,6 +708,22 @@ static int in_ranks(const char *spec)
     const char *p = spec;
     while (*p) { char *e; long r = strtol(p, &e, 10); if (r == g_rank) return 1; p = (*e == ',') ? e + 1 : e; if (e == p && *e) break; }
     return 0;
+}
+
+static void auto_walk(const char *op)
+{
+    if (g_walk < 0) { const char *e = getenv("VERIF_WALK"); g_walk = (e && !strcmp(e, "0")) ? 0 : 1; }
+    if (!g_walk || !ncmpi_verif_walk) return;
+    for (int s = 0; s < NF; s++) {
+        if (F[s] < 0) continue;
+        char msg[1024]; msg[0] = 0;
+        int e = ncmpi_verif_walk(F[s], !Ftaint[s], msg, sizeof(msg));
+        g_nwalks++;
+        if (e == 1) {
+            for (char *c = msg; *c; c++) if (*c == ' ' || *c == '\n') *c = '_';
+            logf_("W %d walk f=%d after=%s msg=%s\n", g_line, s, op, msg);
+        }
+    }
 }
 
 int main(int argc, char **argv)
@@ -750,9 +774,10 @@ int main(int argc, char **argv)
                  || !strcmp(op, "flush") || !strcmp(op, "sync3") || !strcmp(op, "attach") || !strcmp(op, "detach")
                  || !strcmp(op, "fill_var_rec") || !strcmp(op, "set_fill")) op_simple(op);
         else op_misc(op);
+        auto_walk(op);
         g_line = 0;
     }
-    logf_("E 0 end\n");
+    logf_("E 0 end walks=%ld\n", g_nwalks);
     fclose(g_log); g_log = NULL;
     for (int i = 0; i < NT; i++) if (T[i] != MPI_DATATYPE_NULL) PMPI_Type_free(&T[i]);
     PMPI_Finalize();
